@@ -257,6 +257,13 @@ def _ops():
         return qs
     reg('exist', lambda sc, i, j: (sc.bdd if sc.auto else sc.raw).exist(q(sc, i, j, 0), H(sc, i)),
         lambda U, sc, i, j: U.exists(M(sc, i), q(sc, i, j, 0)))
+    # one-shot iterators: a retry after reordering must see the same variables (F16)
+    reg('exist:iterator', lambda sc, i, j: (sc.bdd if sc.auto else sc.raw).exist(
+        (v for v in q(sc, i, j, 0)), H(sc, i)),
+        lambda U, sc, i, j: U.exists(M(sc, i), q(sc, i, j, 0)))
+    reg('forall:iterator', lambda sc, i, j: (sc.bdd if sc.auto else sc.raw).forall(
+        iter(q(sc, i, j, 1)), H(sc, i)),
+        lambda U, sc, i, j: U.forall(M(sc, i), q(sc, i, j, 1)))
     reg('forall', lambda sc, i, j: (sc.bdd if sc.auto else sc.raw).forall(
         q(sc, i, j, 1), H(sc, i)),
         lambda U, sc, i, j: U.forall(M(sc, i), q(sc, i, j, 1)))
@@ -435,7 +442,7 @@ def _ops():
 
 OPS = _ops()
 AUTO_ONLY = {n for n, v in OPS.items() if v[2].startswith('auto')}
-CORE = ['apply:and', 'apply:xor', 'ite', 'exist', 'let:fn2', 'let:rename', 'add_expr',
+CORE = ['apply:and', 'apply:xor', 'ite', 'exist', 'exist:iterator', 'let:fn2', 'let:rename', 'add_expr',
         'copy:BDD.copy', 'load:pickle', 'load:json', 'preimage', 'image', 'cube',
         'Function:<=', 'find_or_add']
 
